@@ -390,6 +390,36 @@ func (c *Ctx) runTLC(o TLCOpts) *TLCResult {
 		os.WriteFile(filepath.Join(dir, name), []byte(content), 0o644)
 	}
 	os.WriteFile(filepath.Join(dir, "run.cfg"), []byte(o.Cfg), 0o644)
+	if d := os.Getenv("VERIF_DUMPCFG"); d != "" {
+		// keep a copy of the exact configuration (and generated root module) of every TLC run, for running it by hand
+		os.MkdirAll(d, 0o755)
+		clean := func(s string) string {
+			out := []rune{}
+			for _, r := range s {
+				if (r >= 'a' && r <= 'z') || (r >= 'A' && r <= 'Z') || (r >= '0' && r <= '9') {
+					out = append(out, r)
+				} else if len(out) > 0 && out[len(out)-1] != '_' {
+					out = append(out, '_')
+				}
+			}
+			if len(out) > 60 {
+				out = out[:60]
+			}
+			return string(out)
+		}
+		base := fmt.Sprintf("%s__%s__%s", c.Prop, o.Module, clean(o.Purpose))
+		hdr := fmt.Sprintf("\\* %s %s: %s\n\\* run by hand:  cd spec && tlc -workers 8 %s.tla -config cfg/%s.cfg", c.Prop, c.Tier, o.Purpose, o.Module, base)
+		if o.Simulate {
+			hdr += fmt.Sprintf(" -simulate num=%d -depth %d -seed %d", o.Num, o.Depth, o.Seed)
+		}
+		if len(o.Extra) > 0 {
+			hdr += "   (root module generated by the harness: see the .tla file next to this one; copy it to spec/ first)"
+		}
+		os.WriteFile(filepath.Join(d, base+".cfg"), []byte(hdr+"\n"+o.Cfg), 0o644)
+		for name, content := range o.Extra {
+			os.WriteFile(filepath.Join(d, base+"__"+name), []byte(content), 0o644)
+		}
+	}
 	workers := o.Workers
 	if workers == 0 {
 		workers = c.Workers
@@ -412,7 +442,7 @@ func (c *Ctx) runTLC(o TLCOpts) *TLCResult {
 	args = append(args, o.Module+".tla")
 	timeout := o.Timeout
 	if timeout == 0 {
-		timeout = 20 * time.Minute
+		timeout = 60 * time.Minute
 	}
 	cmd := exec.Command("java", args...)
 	cmd.Dir = dir
